@@ -100,6 +100,13 @@ func (p *Proxy) ServeHTTP(w http.ResponseWriter, proxyReq *http.Request) {
 }
 
 func finalizeAndRespond(r responder.Responder, resp io.Reader, status int, req *http.Request) error {
+	if status < 100 || status > 999 {
+		// Not a status code that can be put on the wire (net/http panics on it): the upstream answer cannot be relayed.
+		slog.Error("Upstream sent an invalid status code", "url", req.URL, "status", status)
+		metrics.Global.Requests.StatusServerErrorResponses.Increment()
+		return r.WriteError("upstream sent an invalid status code", http.StatusBadGateway)
+	}
+
 	body := resp
 	if req.Method == http.MethodHead {
 		body = http.NoBody
